@@ -468,6 +468,8 @@ def time_shim():
     import time as realtime  # pylint: disable=import-outside-toplevel
 
     def sleep(seconds):
+        if seconds < 0:
+            raise ValueError('sleep length must be non-negative')  # like time.sleep
         k = kmod.current()
         if k:
             k.sleep(seconds, 'time.sleep')
